@@ -213,7 +213,7 @@ struct H02 {
 
 impl StepHandler for H02 {
     fn on_send(&mut self, world: &mut World, before: &ModelState, i: usize, s: &SendStep, o: &SendObs, stats: &mut Stats, out: &mut Vec<Finding>) {
-        let pred = predict(&world.root, before, s, Reading::Condition);
+        let pred = super::predict_seen(world, before, s, o, Reading::Condition);
         if !pred.structural {
             self.prev = Prev::Corrupted;
             return;
